@@ -86,4 +86,88 @@ theorem targetSizeQ_inside : TsOK targetSizeQ := by
     Rat.floor_lt_iff.mpr (by exact_mod_cast hx2)
   omega
 
+
+/-! ## the main facts about the two step functions (used by Props.lean and ProtoLemmas.lean) -/
+
+/-- hold-out conserves the examples (any element type) -/
+theorem holdoutInit_perm {α} (draw : Nat → Nat) (p run : Nat) (s : Sets α) :
+    ((holdoutInit draw p run s).tr ++ (holdoutInit draw p run s).va).Perm (s.tr ++ s.va) := by
+  unfold holdoutInit
+  split
+  · exact List.Perm.refl _
+  · simp only
+    have hsh := shuffleTail_perm draw (s.tr.length - skipOf s.tr.length p) (s.tr.length - 1) s.tr
+    generalize shuffleTail draw _ _ s.tr = sh at *
+    have : (sh.take (skipOf s.tr.length p) ++ (s.va ++ sh.drop (skipOf s.tr.length p))).Perm
+        (s.va ++ (sh.take (skipOf s.tr.length p) ++ sh.drop (skipOf s.tr.length p))) := by
+      rw [← List.append_assoc, ← List.append_assoc]
+      exact List.Perm.append_right _ List.perm_append_comm
+    refine this.trans ?_
+    rw [List.take_append_drop]
+    exact (List.Perm.append_left _ hsh).trans List.perm_append_comm
+
+/-- … and therefore the payload ids -/
+theorem holdoutInit_ids_perm (draw : Nat → Nat) (p run : Nat) (s : Sets Ex) :
+    (ids ((holdoutInit draw p run s).tr ++ (holdoutInit draw p run s).va)).Perm (ids (s.tr ++ s.va)) :=
+  (holdoutInit_perm draw p run s).map _
+
+theorem holdoutInit_later {α} (draw : Nat → Nat) (p run : Nat) (s : Sets α) (h : 0 < run) :
+    holdoutInit draw p run s = s := by
+  simp [holdoutInit, h]
+
+theorem holdoutInit_share {α} (draw : Nat → Nat) (p : Nat) (s : Sets α) (hn : 1 ≤ s.tr.length) :
+    (holdoutInit draw p 0 s).tr.length = max (s.tr.length * (100 - p) / 100) 1 ∧
+    (holdoutInit draw p 0 s).tr ≠ [] ∧
+    (holdoutInit draw p 0 s).va.length = s.va.length + (s.tr.length - max (s.tr.length * (100 - p) / 100) 1) := by
+  have hsh := shuffleTail_perm draw (s.tr.length - skipOf s.tr.length p) (s.tr.length - 1) s.tr
+  have hle := skipOf_le s.tr.length p hn
+  have hpos := skipOf_pos s.tr.length p
+  have hlen := hsh.length_eq
+  have h1 : (holdoutInit draw p 0 s).tr.length = skipOf s.tr.length p := by
+    simp only [holdoutInit, Nat.lt_irrefl, ↓reduceIte, List.length_take]; omega
+  refine ⟨h1, ?_, ?_⟩
+  · intro h; rw [h] at h1; simp at h1; omega
+  · simp only [holdoutInit, Nat.lt_irrefl, ↓reduceIte, List.length_append, List.length_drop]
+    unfold skipOf at *; omega
+
+/-- `shake_impl` satisfies the reshuffle relation -/
+theorem shakeImpl_reshuffle (P : Partitioner) (ts : Nat → Nat) (hts : TsOK ts) (sel : Nat → Bool) (s : St)
+    (hn : 2 ≤ s.tr.length + s.va.length) : ReshuffleStep s (shakeImpl P ts sel s) := by
+  unfold shakeImpl moveToValidation
+  simp only
+  generalize htag : ((s.va ++ s.tr).zipIdx.map fun (e, i) => (e, sel i)) = tagged
+  have hperm := P.perm (fun (x : Ex × Bool) => !x.2) tagged
+  generalize P.run (fun (x : Ex × Bool) => !x.2) tagged = parted at *
+  have hv : (parted.map (·.1)).Perm (s.va ++ s.tr) := by
+    have := hperm.map (·.1)
+    rw [← htag, tagged_fst] at this
+    exact this
+  have hlen : parted.length = s.va.length + s.tr.length := by
+    have := hv.length_eq; simpa using this
+  have hc : parted.countP (fun x => !x.2) ≤ parted.length := List.countP_le_length
+  have hp := pivot_inside ts hts parted.length (parted.countP (fun x => !x.2)) (by omega) hc
+  simp only at hp
+  generalize (if parted.countP (fun x => !x.2) = 0 ∨ parted.countP (fun x => !x.2) = parted.length
+      then ts parted.length else parted.countP (fun x => !x.2)) = pivot at *
+  generalize parted.map (·.1) = v at *
+  have hvl : v.length = parted.length := by have := hv.length_eq; simp at this; omega
+  refine ⟨?_, ?_, ?_, ?_, ?_⟩
+  · intro h
+    have := congrArg List.length h
+    simp [resetAD_length] at this; omega
+  · intro h
+    have : (v.take pivot).length = 0 := by
+      have := congrArg List.length h
+      exact this
+    rw [List.length_take] at this; omega
+  · intro e he; exact mem_resetAD he
+  · intro e _
+    calc (v.take pivot).count e ≤ v.count e := (List.take_sublist _ _).count_le _
+      _ = (s.va ++ s.tr).count e := hv.count_eq e
+  · rw [ids_append, ids_resetAD, ← ids_append]
+    have h1 : (v.drop pivot ++ v.take pivot).Perm v := by
+      have := List.take_append_drop pivot v
+      exact List.perm_append_comm.trans (by rw [this])
+    exact (h1.map _).trans (hv.map _)
+
 end Vita.C16
